@@ -24,7 +24,7 @@ func genTenantHistory(r *rand.Rand, quick bool) *plan.Plan {
 	k := swarmKnobs(r)
 	k.MaxSegFileSize = []uint64{0, 1}[r.IntN(2)]
 	p := &plan.Plan{Knobs: k, Params: map[string]any{}}
-	inc := plan.Incarnation{Boot: "full", SchedSeed: r.Uint64() | 1}
+	inc := plan.Incarnation{Boot: "full", SchedSeed: r.Uint64()>>11 | 1}
 	orgs := tenantOrgs[:2+r.IntN(2)]
 	counter := 0
 	queries := func() {
@@ -69,7 +69,7 @@ func genTenantHistory(r *rand.Rand, quick bool) *plan.Plan {
 		default:
 			inc.Ops = append(inc.Ops, plan.Op{Kind: "shutdown"})
 			p.Incs = append(p.Incs, inc)
-			inc = plan.Incarnation{Boot: "full", SchedSeed: r.Uint64() | 1}
+			inc = plan.Incarnation{Boot: "full", SchedSeed: r.Uint64()>>11 | 1}
 			queries()
 		}
 	}
